@@ -192,6 +192,30 @@ fn pattern_case<const N: usize>(ctx: &mut Ctx, idx: usize) {
 fn complete_g1<const N: usize>(ctx: &mut Ctx, idx: usize) { complete_case::<G1Projective, N>(ctx, idx) }
 fn complete_g2<const N: usize>(ctx: &mut Ctx, idx: usize) { complete_case::<G2Projective, N>(ctx, idx) }
 
+/// Tuple length 0 ("for every tuple length"): a commitment to the empty message is `h^r`, and the proofs degenerate
+/// to plain Schnorr proofs of knowledge of `r`; everything must still work, compared with the model on empty lists.
+fn zero_length_case(ctx: &mut Ctx, idx: usize) {
+    if !ctx.begin_case(idx, "zero-length-tuples") {
+        return;
+    }
+    use std::panic::{catch_unwind, AssertUnwindSafe};
+    let book = ctx.book.clone();
+    let (h1, h2) = (nonzero(&mut ctx.prng), nonzero(&mut ctx.prng));
+    let r = catch_unwind(AssertUnwindSafe(|| {
+        let pp1 = crate::props::c09::params_from::<G1Projective, 0>(&book, &h1, &[]);
+        let pp2 = crate::props::c09::params_from::<G2Projective, 0>(&book, &h2, &[]);
+        let a = cp_honest::<G1Projective, 0>(ctx, &pp1, &h1, &[], &[], &[], ChalMode::Derived).map(|(proof, _pd, _w, c)| proof.verify_knowledge_of_opening(&pp1, crate::schnorr::chal(&c)));
+        let b = cp_honest::<G2Projective, 0>(ctx, &pp2, &h2, &[], &[], &[], ChalMode::Derived).map(|(proof, _pd, _w, c)| proof.verify_knowledge_of_opening(&pp2, crate::schnorr::chal(&c)));
+        (a, b)
+    }));
+    ctx.evals += 1;
+    match r {
+        Ok((Some(true), Some(true))) => ctx.count("zero-length:commitment-proofs-accepted"),
+        Ok(x) => ctx.violation(&format!("commitment proofs of tuple length 0 are not accepted: {:?}", x), json!({"class": "zero-length-commitment-proof-rejected"})),
+        Err(_) => ctx.violation("building / verifying a commitment proof of tuple length 0 panics", json!({"class": "zero-length-tuple-panics"})),
+    }
+}
+
 pub fn run(ctx: &mut Ctx) {
     let reps = if ctx.thorough() { 12 } else { 2 };
     let mut idx = 0;
@@ -205,6 +229,8 @@ pub fn run(ctx: &mut Ctx) {
             idx += 1;
         }
     }
+    idx += 1;
+    zero_length_case(ctx, idx);
     // range completeness on the boundary set is covered case by case in C13's "range-honest"; repeat a few here
     let (rp, rpd, _, _) = rp_decoded(ctx);
     for v in boundary_values(ctx) {
